@@ -705,6 +705,28 @@ def Schema.kidsAttrsOK (S : Schema) : List Node → Bool
   | n :: ns => S.nodeAttrsOK n && S.kidsAttrsOK ns
 end
 
+/-! ### decidable hypotheses of the inline-insertion totality theorem (Props/C11.lean `insertInline_total`) -/
+
+/-- wrapper types are not the text type; and when pass 2 of `find_fittable` answers with a
+    non-empty wrapping `w0 :: …` for a type `x` at state `q`, then `x` does not match at the state
+    reached by `w0` either — `place_nodes` reads `frontier[frontier_depth]` *after* opening the
+    wrappers, and were `x` to match there it would be placed next to the wrapper instead of inside it,
+    leaving `placed` and the frontier out of step (also upstream) -/
+def Schema.wrapOKB (S : Schema) : Bool :=
+  (List.range S.nodes.size).all (fun w => (!S.wrappable w || !(S.nodeType w).isText) &&
+    (List.range (S.dfa w).size).all (fun q => (List.range S.nodes.size).all (fun x =>
+      match findWrappingTypes S (S.dfa w) q x with
+      | some (w0 :: _) =>
+        (match (S.dfa w).matchType q w0 with
+         | some q' => ((S.dfa w).matchType q' x).isNone
+         | none => true)
+      | _ => true)))
+
+/-- the slice is closed and its content consists of leaf / text nodes of types of the schema
+    (typed text, hard breaks, images, …) -/
+def Slice.inlineLeaves (S : Schema) (sl : Slice) : Bool :=
+  sl.openStart == 0 && sl.openEnd == 0 && sl.content.all (fun n => n.isLeaf && decide (S.tyOf n < S.nodes.size))
+
 /-- `Transform.delete_range(f, t)`: the step it records (via `self.delete(f', t')` =
     `self.replace(f', t', Slice.empty)` = `replace_step`); `.ok none` = no step -/
 def deleteRangeStep (S : Schema) (doc : Node) (f t : Nat) : FM (Option Step) :=
